@@ -196,7 +196,12 @@ class GridSearch(BaseEstimator, MetaEstimatorMixin):
                 current_estimator = copy.deepcopy(self.estimator)
 
             oracle_call_start_time = time()
-            current_estimator.fit(X, y_reduction, **{self.sample_weight_name: weights})
+            if len(y_reduction_unique) == 1:
+                # the constant classifier takes plain `sample_weight`, whatever name the
+                # user's estimator expects
+                current_estimator.fit(X, y_reduction, sample_weight=weights)
+            else:
+                current_estimator.fit(X, y_reduction, **{self.sample_weight_name: weights})
             oracle_call_execution_time = time() - oracle_call_start_time
             logger.debug("Call to estimator complete")
 
